@@ -679,6 +679,7 @@ impl<'a, 'tcx> Cx<'a, 'tcx> {
                         f.push(("agg", J::s("adt")));
                         f.push(("path", J::s(path_str(tcx, *did))));
                         f.push(("variant", J::s(v.name.to_string())));
+                        f.push(("vidx", J::Int(vidx.as_u32() as i128)));
                         f.push(("is_enum", J::Bool(def.is_enum())));
                         f.push((
                             "fields",
